@@ -5,6 +5,8 @@ package main
 // matched on source text or line numbers (positions are carried for diagnostics only).
 
 import (
+	_ "embed"
+	"encoding/json"
 	"fmt"
 	"go/constant"
 	"go/token"
@@ -39,6 +41,8 @@ type Prog struct {
 	sentFlow *sentinelFlow
 	// Forwarders lists the outlined pairs the loader collapsed (see collapseForwarders)
 	Forwarders []string
+	// Renamed lists the helpers that were recognised under a new name (see resolveRenamed)
+	Renamed []string
 }
 
 // Load type-checks /repo from source (no tests), builds SSA with generics instantiated.
@@ -126,6 +130,7 @@ func Load(repo string, env []string) (*Prog, error) {
 			}
 		}
 	}
+	p.resolveRenamed()
 	sort.Slice(p.modFns, func(i, j int) bool { return p.modFns[i].String() < p.modFns[j].String() })
 	p.threadStoredConditions()
 	p.normalizeComparisons()
@@ -350,6 +355,14 @@ func fnName(fn *ssa.Function) string {
 	for i := 0; i < 8 && fwdAlias[fn] != nil; i++ {
 		fn = fwdAlias[fn]
 	}
+	if k, ok := renamedKey[fn]; ok {
+		return k[strings.LastIndex(k, ".")+1:]
+	}
+	if o := fn.Origin(); o != nil {
+		if k, ok := renamedKey[o]; ok {
+			return k[strings.LastIndex(k, ".")+1:]
+		}
+	}
 	return fn.Name()
 }
 
@@ -360,6 +373,14 @@ func FuncKey(fn *ssa.Function) string {
 	}
 	for i := 0; i < 8 && fwdAlias[fn] != nil; i++ {
 		fn = fwdAlias[fn]
+	}
+	if k, ok := renamedKey[fn]; ok {
+		return k
+	}
+	if o := fn.Origin(); o != nil {
+		if k, ok := renamedKey[o]; ok {
+			return k
+		}
 	}
 	if fn.Parent() != nil {
 		pk := FuncKey(fn.Parent())
@@ -819,4 +840,144 @@ func (p *Prog) CallSitesOf(fn *ssa.Function) []Site {
 		})
 	}
 	return out
+}
+
+// ---------- helpers that were renamed ----------
+//
+// The rules name the functions they speak about. For the exported API that is what the properties do too; for unexported
+// helpers the name is an accident of today's tree, and renaming one changes no behaviour. funcs_ref.json lists the declared
+// functions of the reference tree (key, package, receiver, signature, position among the declarations of its package).
+// A reference key that no function carries any more is given to the one function of the same package and receiver with
+// the same signature whose own key is not a reference key (several candidates: matched in declaration order, when the
+// counts agree). FuncKey and fnName then answer with the reference name. Listed in a note of the evidence.
+
+//go:embed funcs_ref.json
+var funcsRefJSON []byte
+
+type declFunc struct {
+	Key   string `json:"key"`
+	Pkg   string `json:"pkg"`
+	Recv  string `json:"recv"`
+	Sig   string `json:"sig"`
+	Order int    `json:"order"`
+}
+
+var renamedKey = map[*ssa.Function]string{}
+
+func sigString(fn *ssa.Function) string {
+	return types.TypeString(fn.Signature, func(p *types.Package) string { return shortPkg(p.Path()) })
+}
+
+func recvString(fn *ssa.Function) string {
+	if r := fn.Signature.Recv(); r != nil {
+		return typeShort(r.Type())
+	}
+	return ""
+}
+
+// declaredFuncs: the declared (not synthetic, not nested) module functions with a body.
+func (p *Prog) declaredFuncs() []declFunc {
+	var fns []*ssa.Function
+	for _, fn := range p.modFns {
+		if fn.Parent() != nil || fn.Synthetic != "" || len(fn.TypeArgs()) > 0 || fwdTarget[fn] != nil {
+			continue
+		}
+		if _, ok := fn.Object().(*types.Func); !ok {
+			continue
+		}
+		fns = append(fns, fn)
+	}
+	sort.Slice(fns, func(i, j int) bool {
+		pi, pj := p.Fset.Position(fns[i].Pos()), p.Fset.Position(fns[j].Pos())
+		if pi.Filename != pj.Filename {
+			return pi.Filename < pj.Filename
+		}
+		return pi.Offset < pj.Offset
+	})
+	var out []declFunc
+	seen := map[string]bool{}
+	for i, fn := range fns {
+		k := FuncKey(fn)
+		if k == "" || seen[k] {
+			continue
+		}
+		seen[k] = true
+		pk := ""
+		if pp := fnPkg(fn); pp != nil {
+			pk = shortPkg(pp.Path())
+		}
+		out = append(out, declFunc{Key: k, Pkg: pk, Recv: recvString(fn), Sig: sigString(fn), Order: i})
+	}
+	return out
+}
+
+func (p *Prog) resolveRenamed() {
+	var ref []declFunc
+	if err := json.Unmarshal(funcsRefJSON, &ref); err != nil || len(ref) == 0 {
+		return
+	}
+	refKeys := map[string]bool{}
+	for _, d := range ref {
+		refKeys[d.Key] = true
+	}
+	cur := p.declaredFuncs()
+	curByKey := map[string]*ssa.Function{}
+	for _, fn := range p.modFns {
+		if fn.Parent() == nil && fn.Synthetic == "" && len(fn.TypeArgs()) == 0 {
+			if k := FuncKey(fn); k != "" {
+				if _, ok := curByKey[k]; !ok {
+					curByKey[k] = fn
+				}
+			}
+		}
+	}
+	type group struct{ pkg, recv, sig string }
+	missing := map[group][]declFunc{}
+	for _, d := range ref {
+		if _, ok := p.funcs[d.Key]; !ok {
+			// only unexported names: an exported function that is gone is a changed API, not a renamed helper
+			name := d.Key[strings.LastIndex(d.Key, ".")+1:]
+			if name == "" || !(name[0] >= 'a' && name[0] <= 'z') {
+				continue
+			}
+			g := group{d.Pkg, d.Recv, d.Sig}
+			missing[g] = append(missing[g], d)
+		}
+	}
+	if len(missing) == 0 {
+		return
+	}
+	fresh := map[group][]declFunc{}
+	for _, d := range cur {
+		if !refKeys[d.Key] {
+			g := group{d.Pkg, d.Recv, d.Sig}
+			fresh[g] = append(fresh[g], d)
+		}
+	}
+	for g, ms := range missing {
+		fs := fresh[g]
+		if len(fs) != len(ms) {
+			continue
+		}
+		sort.Slice(ms, func(i, j int) bool { return ms[i].Order < ms[j].Order })
+		sort.Slice(fs, func(i, j int) bool { return fs[i].Order < fs[j].Order })
+		for i := range ms {
+			fn := curByKey[fs[i].Key]
+			if fn == nil {
+				continue
+			}
+			delete(p.funcs, fs[i].Key)
+			// closures of fn are keyed below their parent: re-key them
+			for k, f := range p.funcs {
+				if strings.HasPrefix(k, fs[i].Key+"$") && isAncestor(fn, f) {
+					delete(p.funcs, k)
+					defer func(f *ssa.Function) { p.funcs[FuncKey(f)] = f }(f)
+				}
+			}
+			renamedKey[fn] = ms[i].Key
+			p.funcs[ms[i].Key] = fn
+			p.Renamed = append(p.Renamed, fs[i].Key+" is "+ms[i].Key)
+		}
+	}
+	sort.Strings(p.Renamed)
 }
